@@ -167,7 +167,8 @@ func (e *Engine) Discharge(obls []*Obligation, outDir string, timeout time.Durat
 		}
 		byName[o.Name] = append(byName[o.Name], o)
 	}
-	defs := extraDefs()
+	_ = extraDefs
+	defFuns := e.DefFuns()
 	type qres struct {
 		QueryResult
 		job *queryJob
@@ -183,7 +184,7 @@ func (e *Engine) Discharge(obls []*Obligation, outDir string, timeout time.Durat
 			if o.Goal.IsTrue() && o.Expect != "sat" {
 				continue
 			}
-			sc := &smt.Script{Logic: "ALL", Defs: defs, Axioms: axioms}
+			sc := &smt.Script{Logic: "ALL", DefFuns: defFuns, Axioms: axioms}
 			sc.Asserts = append(sc.Asserts, o.Hyps...)
 			if o.Expect == "sat" {
 				sc.Asserts = append(sc.Asserts, o.Goal)
